@@ -17,6 +17,7 @@ import (
 // packages to load per property
 var propPkgs = map[string][]string{
 	"C14": {"ringbuffer"},
+	"C08": {"safemap", "actor"},
 	"C15": {"remote"}, "C16": {"remote"}, "C17": {"remote"},
 	"C18": {"cluster"}, "C19": {"cluster"}, "C20": {"cluster"},
 }
@@ -548,6 +549,12 @@ var globalAssumptions = []string{
 }
 
 var propAssumptions = map[string][]string{
+	"C08": {
+		"scope: SafeMap.New/Set/Get/Delete/Len (lock-invariant mode), Context.SpawnChild/Parent/Child, process.cleanup, process.PID; SafeMap.ForEach and Context.Children are not verified (Children is a trusted contract: fresh slice)",
+		"transitivity over the tree is induction on depth with cleanup's contract as hypothesis for each child; the child's poison context is done only after its own cleanup (C07); not machine-checked",
+		"trusted contracts: newProcess, DefaultOpts, newFuncReceiver, Engine.Poison, Context.Children; functype OptFunc (user code may write the Opts it is handed)",
+		"thread confinement of cleanup and of SpawnChild (they run on the owning actor's worker: C02)",
+	},
 	"C02": {
 		"scope: Inbox.Send/schedule/process/run/Start/Stop and goscheduler.Schedule in global-invariant mode; process.Start/Invoke/tryRestart/cleanup for 'runs on the owner thread'; Engine.Spawn/newProcess/NewInbox are not under contract (the first Start is assumed to run on the thread that created the inbox)",
 		"thread-modular reasoning: before every atomic step all shared state of the inbox is arbitrary subject to the invariant and this thread's stable clauses (each stable clause is re-proved after every step of the thread that relies on it)",
